@@ -3,6 +3,7 @@ package checks
 import (
 	"fmt"
 	"reflect"
+	"sort"
 	"strings"
 
 	"golang.org/x/net/html"
@@ -157,7 +158,8 @@ type c04Case struct {
 	Root  string `json:"root"`  // map | struct | ptr
 	Print string `json:"print"` // must | attr | expr
 	Nest  string `json:"nest,omitempty"`
-	Entry string `json:"entry"` // string | file
+	Body  string `json:"body,omitempty"` // item consumer inside the loop body (body part)
+	Entry string `json:"entry"`          // string | file
 }
 
 func (c *c04Case) render(tpl string, data any) (string, error) {
@@ -263,7 +265,129 @@ func (c *c04Case) build() (tpl string, data any, wantInst []string, wantElse boo
 	return tpl, data, wantInst, wantElse, wantAfter, true
 }
 
+// --- body part: every way a loop body can consume the item, differential against one-item loops
+
+var c04BodyFiles = Files{
+	"c.vuego":  `<em class="c">{{ p }}</em>`,
+	"s.vuego":  `<div class="s"><slot></slot></div>`,
+	"s2.vuego": `<div class="s"><slot></slot><slot></slot></div>`,
+}
+
+var c04Bodies = map[string]string{
+	"text":      `x{{ it }}y`,
+	"deep":      `<div><p><span>{{ it }}</span></p></div>`,
+	"attr":      `<b title="t-{{ it }}">k</b>`,
+	"bind":      `<b :title="it">k</b>`,
+	"class":     `<b class="base" :class="it">k</b>`,
+	"style":     `<b style="margin: 0" :style="{color: it}">k</b>`,
+	"vtext":     `<b v-text="it">old</b>`,
+	"vhtml":     `<b v-html="it">old</b>`,
+	"tvhtml":    `<template v-html="it"></template>`,
+	"vshow":     `<b style="top: 0" v-show="it == 's1'">{{ it }}</b>`,
+	"vifinner":  `<b v-if="it == 's1'">yes-{{ it }}</b><b v-else>no-{{ it }}</b>`,
+	"tmplvar":   `<template :z="it"></template><b>{{ z }}</b>`,
+	"include":   `<template include="c.vuego" :p="it"></template>`,
+	"includes":  `<template include="c.vuego" p="q-{{ it }}"></template>`,
+	"slot":      `<template include="s.vuego"><u :title="it">{{ it }}</u></template>`,
+	"slot2":     `<template include="s2.vuego"><u :title="it" v-if="it">{{ it }}</u></template>`,
+	"innerfor":  `<b v-for="q in two" :title="it">{{ q }}{{ it }}</b>`,
+	"vhtmlattr": `<b v-html="it" :title="it" class="h">old</b>`,
+	"pre":       `<pre>{{ it }}</pre>`,
+	"filter":    `<b>{{ it | upper }}</b><i :title="it | upper">k</i>`,
+}
+
+var c04BodyNames = func() []string {
+	var ns []string
+	for k := range c04Bodies {
+		ns = append(ns, k)
+	}
+	sort.Strings(ns)
+	return ns
+}()
+
+func (c *c04Case) runBody(ctx *core.Ctx) {
+	items := []string{"s0", "s1", "s2"}[:c.Len]
+	if c.Coll == "htmls" {
+		for i := range items {
+			items[i] = fmt.Sprintf("<i>s%d</i>", i)
+		}
+	}
+	body := c04Bodies[c.Body]
+	loopExpr := "it in xs"
+	if c.Form == "ix" {
+		loopExpr = "(i, it) in xs"
+	}
+	var tpl string
+	if c.Elem == "tmpl" {
+		tpl = `<ul><template v-for="` + loopExpr + `"><li class="inst">` + body + `</li></template></ul>`
+	} else {
+		tpl = `<ul><li class="inst" v-for="` + loopExpr + `">` + body + `</li></ul>`
+	}
+	render := func(xs []string) ([]string, string, error) {
+		data := map[string]any{"xs": xs, "two": []int{1, 2}}
+		ctx.Eval(1)
+		var out string
+		var err error
+		if c.Entry == "file" {
+			f := Files{"page.vuego": tpl}
+			for k, v := range c04BodyFiles {
+				f[k] = v
+			}
+			out, err = renderPage(f, "page.vuego", data)
+		} else {
+			out, err = renderStringFS(c04BodyFiles, tpl, data)
+		}
+		if err != nil {
+			return nil, out, err
+		}
+		var inst []string
+		for _, n := range htmlcmp.Find(htmlcmp.Parse(out), func(n *html.Node) bool { cl, _ := htmlcmp.Attr(n, "class"); return cl == "inst" }) {
+			inst = append(inst, oneLine(htmlcmp.String(htmlcmp.Project([]*html.Node{n}, htmlcmp.Options{Values: true}))))
+		}
+		return inst, out, nil
+	}
+	where := "body/" + c.Body + "/" + c.Elem
+	trig := c.Coll
+	got, out, err := render(items)
+	if err != nil {
+		ctx.Violation("render-error", where, trig, fmt.Sprintf("tpl %q: %v", tpl, err))
+		return
+	}
+	if c.Len > 1 {
+		ctx.NonTrivial()
+	}
+	ctx.Outcome(strings.Join(got, ","))
+	if len(got) != len(items) {
+		ctx.Violation("instances", where, trig, fmt.Sprintf("tpl %q items %q: %d instances (out %q)", tpl, items, len(got), clip(out, 400)))
+		return
+	}
+	for i, it := range items {
+		// (a) the instance shows its own item and no other item
+		for j := range items {
+			mk := fmt.Sprintf("s%d", j)
+			if has := strings.Contains(got[i], mk) || strings.Contains(got[i], strings.ToUpper(mk)); has != (i == j) {
+				ctx.Violation("instance-item", where, trig, fmt.Sprintf("tpl %q items %q: instance %d is %s (marker %s present=%v)\nout %q", tpl, items, i, got[i], mk, has, clip(out, 400)))
+				return
+			}
+		}
+		// (b) it equals the only instance of a loop over just that item
+		solo, sout, err := render([]string{it})
+		if err != nil || len(solo) != 1 {
+			ctx.Violation("instances", where, trig+"/solo", fmt.Sprintf("tpl %q item %q alone: %v %v (out %q)", tpl, it, solo, err, clip(sout, 300)))
+			return
+		}
+		if solo[0] != got[i] {
+			ctx.Violation("instance-differs-from-solo", where, trig, fmt.Sprintf("tpl %q items %q: instance %d is\n  %s\nbut a loop over [%q] alone gives\n  %s", tpl, items, i, got[i], it, solo[0]))
+			return
+		}
+	}
+}
+
 func (c *c04Case) Run(ctx *core.Ctx) {
+	if c.Body != "" {
+		c.runBody(ctx)
+		return
+	}
 	if c.Nest != "" {
 		c.runNest(ctx)
 		return
@@ -394,7 +518,7 @@ func init() {
 	core.Register(&core.Check{
 		ID:    "C04",
 		Level: "exploration",
-		Rule: "every combination of collection kind (15: incl. slices with nil items, slices of any/int/int32/string/bool/map/struct/*struct, array, nil slice, nil value, missing) x length x access path x loop form x loop-variable name (fresh / shadows a map key / shadows a root struct field by name / by JSON tag) x v-else (none/adjacent/after whitespace) x looped element (plain, v-if, bindings, <template>) x root data (map/struct/*struct) x printing position ({{ }}, expression); plus nested loops. " +
+		Rule: "every combination of collection kind (15: incl. slices with nil items, slices of any/int/int32/string/bool/map/struct/*struct, array, nil slice, nil value, missing) x length x access path x loop form x loop-variable name (fresh / shadows a map key / shadows a root struct field by name / by JSON tag) x v-else (none/adjacent/after whitespace) x looped element (plain, v-if, bindings, <template>) x root data (map/struct/*struct) x printing position ({{ }}, expression); plus nested loops; plus a body part: 20 ways a loop body can consume the item (text, deep text, interpolated/bound attribute, :class, :style, v-text, v-html, <template v-html>, v-show, inner v-if/v-else, <template :var>, include with bound / interpolated prop, slot content used once / twice, inner v-for, filters, pre) x 1..3 items x loop form x looped element x entry point, with the oracle: instance i shows item i and no other item and equals the single instance of a loop over [item i] alone. " +
 			"oracle: reference interpreter gives the instance list, for-else presence and the value of the loop variable's name before and after the loop. non-trivial = at least one item",
 		Bounds:      map[string]string{"quick": "lengths 0..2, nesting depth 2", "thorough": "lengths 0..3, nesting depth 2"},
 		Assumptions: []string{"iteration over maps is C10's subject, not enumerated here", "v-else after an element carrying both v-for and v-if is ambiguous and not generated"},
@@ -409,6 +533,22 @@ func init() {
 					for n := 0; n <= 3; n++ {
 						emit(&c04Case{Nest: nest, Root: root, Len: n, Entry: "string"})
 						emit(&c04Case{Nest: nest, Root: root, Len: n, Entry: "file"})
+					}
+				}
+			}
+			for _, body := range c04BodyNames {
+				for _, coll := range []string{"strings", "htmls"} {
+					if coll == "htmls" && !strings.Contains(body, "html") {
+						continue
+					}
+					for n := 1; n <= 3; n++ {
+						for _, form := range []string{"x", "ix"} {
+							for _, elem := range []string{"plain", "tmpl"} {
+								for _, entry := range []string{"string", "file"} {
+									emit(&c04Case{Body: body, Coll: coll, Len: n, Form: form, Elem: elem, Entry: entry})
+								}
+							}
+						}
 					}
 				}
 			}
